@@ -123,7 +123,7 @@ func TestC27(t *testing.T) {
 	st := stats.New("C27", "exploration", ruleC27,
 		"a single case that does not return within 90 s of wall time counts as a hang; normal cases take well under a millisecond")
 	defer st.Write(t)
-	n := stats.N(5000, 40000)
+	n := stats.N(10000, 60000)
 	st.Set("requested_checks", n)
 	stats.Check(t, n, 27, func(rt *rapid.T) {
 		p := GenProgram(rt, Opts{MaxStmts: 3, MaxDepth: 3, BigAmount: true})
